@@ -40,7 +40,7 @@ def main():
     chk = common.Check(PROP, __doc__)
     base = F.default_shards(t, (PROP,), kn, tools=("git",))
     sh = F.with_strat(base, ("mergetool", None, None, True), "-mergetool")
-    sh += F.with_strat([s for s in base if s[1].startswith(("act-", "nb-"))], ("inline", None, None, True), "-inline")
+    sh += F.with_strat([s for s in base if s[1].startswith(("act-", "nb-", "scn-"))], ("inline", None, None, True), "-inline")
     r = runner.explore("harness.fam_nbmerge", sh, nproc=common.nproc(),
                        budget_s=450 if t == "quick" else 3000)
     chk.add("notebook-decisions", r)
